@@ -37,7 +37,11 @@ Inductive expr :=
 | ECase (ws : list (expr * expr)) (d : expr)  (* CASE WHEN c THEN v ... ELSE d END *)
 | EFn (f : string) (args : list expr)       (* named function, lower-cased name *)
 | ECast (a : expr) (ty : string)            (* interpreted as function "cast:<ty>" *)
-| EParen (a : expr).
+| EParen (a : expr)
+(* aggregate (max if agg_max else min) over the cross product of two string arrays of f(x, y):
+   list_min(list_transform(flatten(list_transform(a, x -> list_transform(b, y -> [x, y]))),
+            pair -> f(pair[1], pair[2])))   (PairwiseStringDistanceFunctionLevel) *)
+| EPairwise (agg_max : bool) (f : string) (a b : expr).
 
 Record profile := { int_div : bool;            (* INTEGER / INTEGER truncates (SQLite) *)
                     div0 : val }.              (* value of x / 0 (x >= 0 in this fragment) *)
@@ -151,6 +155,20 @@ Definition arith_val (P : profile) (op : arith) (a b : val) : val :=
     end
   end.
 
+(* min / max of a list of numeric values; NULL for the empty list or a non-numeric element *)
+Definition num_pick (take_max : bool) (a b : val) : val :=
+  match to_xnum a, to_xnum b with
+  | Some x, Some y => if take_max then (if xle x y then b else a) else (if xle x y then a else b)
+  | _, _ => VNull
+  end.
+Definition agg_vals (take_max : bool) (l : list val) : val :=
+  match l with
+  | [] => VNull
+  | v :: t => fold_left (num_pick take_max) t (match to_xnum v with Some _ => v | None => VNull end)
+  end.
+Definition cross (a b : list string) : list (string * string) :=
+  flat_map (fun x => map (fun y => (x, y)) b) a.
+
 (* ---------- evaluation ---------- *)
 Section Eval.
   Variable P : profile.
@@ -177,6 +195,11 @@ Section Eval.
     | EFn f args => fenv f (map eval args)
     | ECast a ty => fenv ("cast:" ++ ty) [eval a]
     | EParen a => eval a
+    | EPairwise mx f a b =>
+      match eval a, eval b with
+      | VArr la, VArr lb => agg_vals mx (map (fun xy => fenv f [VStr (fst xy); VStr (snd xy)]) (cross la lb))
+      | _, _ => VNull
+      end
     end.
 
   Definition sem (e : expr) : tv := to_tv (eval e).
@@ -198,6 +221,7 @@ Fixpoint strip (e : expr) : expr :=
   | EFn f args => EFn f (map strip args)
   | ECast a ty => ECast (strip a) ty
   | EParen a => strip a
+  | EPairwise mx f a b => EPairwise mx f (strip a) (strip b)
   end.
 
 Definition Q_eqb (a b : Q) : bool := Z.eqb (Qnum a) (Qnum b) && Pos.eqb (Qden a) (Qden b).
@@ -253,6 +277,7 @@ Fixpoint expr_eqb (a b : expr) {struct a} : bool :=
        end) xs xs'
   | ECast x ty, ECast x' ty' => expr_eqb x x' && String.eqb ty ty'
   | EParen x, EParen x' => expr_eqb x x'
+  | EPairwise m f x y, EPairwise m' f' x' y' => Bool.eqb m m' && String.eqb f f' && expr_eqb x x' && expr_eqb y y'
   | _, _ => false
   end.
 
